@@ -54,6 +54,16 @@ def candidates(rng, base):
                 c = copy.deepcopy(base)
                 del get(c, p[:-1])['ps'][p[-1]]
                 out.append(c)                                   # particle dropped
+            if node['t'] == 'e':
+                other = rng.choice([x for x in 'abc' if x != node['n']])
+                for repl in (cm.E(other, (node['mn'], node['mx'])), cm.E(other, (0, 1)),
+                             cm.G('seq', [cm.E(node['n'], (node['mn'], node['mx'])), cm.E(other, (0, 1))]),
+                             cm.G('seq', [cm.E(other, (0, 1)), cm.E(node['n'], (node['mn'], node['mx']))]),
+                             cm.G('choice', [cm.E(node['n']), cm.E(other)], (node['mn'], node['mx'])),
+                             cm.G('seq', [cm.E(node['n']), cm.E(node['n'], (0, 1))])):
+                    c = copy.deepcopy(base)
+                    get(c, p[:-1])['ps'][p[-1]] = repl
+                    out.append(c)                               # element renamed / replaced by a group around it
             if node['t'] == 'w':
                 for s in cm.leaf_symbols(node):
                     if s in ('a', 'b', 'c'):
